@@ -1,7 +1,7 @@
 """C17 — Every access path agrees and index accounting never leaks."""
 from ._store import run_store
 
-THEOREMS = ['unretrievable_not_found', 'self_findable_by_id', 'empty_means_zero', 'tag_entries_of_live', 'self_findable', 'index_padding_from_source', 'keys_from_source']
+THEOREMS = ['unretrievable_not_found', 'self_findable_by_id', 'empty_means_zero', 'tag_entries_of_live', 'self_findable', 'index_padding_from_source', 'keys_from_source', 'index_walk_from_source']
 
 
 def run():
